@@ -29,7 +29,7 @@ func segments(r *Rng, ids []int) [][]int {
 }
 
 func genCase(r *Rng, adversarial bool) *caseSpec {
-	cs := &caseSpec{snaproot: -1}
+	cs := &caseSpec{snaproot: -1, sb: 100}
 	if r.Chance(2, 5) {
 		cs.scheme = 1
 	} else {
@@ -117,7 +117,7 @@ func genCase(r *Rng, adversarial bool) *caseSpec {
 	}
 	if cs.S > 0 {
 		onSide = true
-		for _, seg := range segments(r, rng(sideBase+1, sideBase+cs.S)) {
+		for _, seg := range segments(r, rng(cs.sb+1, cs.sb+cs.S)) {
 			cs.ops = append(cs.ops, opSpec{kind: 0, ids: seg})
 			imported = append(imported, seg...)
 			sprinkle()
@@ -200,5 +200,14 @@ func gen(r *Rng, tier string, emit func(c Sx)) {
 		cr := cs.execute()
 		os.RemoveAll(cr.dir)
 		emit(cs.sx(cr.dur, cr.snaproot))
+	}
+	// multi-session histories on long chains (clean shutdowns and crashes alternating)
+	r2 := r.Fork()
+	m := 26
+	if tier == "thorough" {
+		m = 260
+	}
+	for i := 0; i < m; i++ {
+		emitV2(genCaseV2(r2), emit)
 	}
 }
